@@ -5,7 +5,7 @@ import json, os, subprocess, sys, time
 from pathlib import Path
 SEEDED = Path("/verif/seeded")
 REPO = os.environ.get("VT_REPO", "/repo")  # a scratch worktree of /repo at the same commit may stand in while /repo is busy
-ALSO = {"C01-m6": ["C18"], "C02-m5": ["C08"], "C19-m3": ["C02"], "C07-m5": ["C13"], "C03-m3": ["C15"], "C03-m4": ["C09"], "C04-m4": ["C18"], "C02-m2": ["C13"], "C04-m1": ["C08"], "C04-m2": ["C08"], "C08-m1": ["C04"], "C10-m1": ["C11"]}
+ALSO = {"C09-m6": ["C04", "C08"], "C01-m6": ["C18"], "C02-m5": ["C08"], "C19-m3": ["C02"], "C07-m5": ["C13"], "C03-m3": ["C15"], "C03-m4": ["C09"], "C04-m4": ["C18"], "C02-m2": ["C13"], "C04-m1": ["C08"], "C04-m2": ["C08"], "C08-m1": ["C04"], "C10-m1": ["C11"]}
 names = sys.argv[1:] or sorted(p.name for p in SEEDED.iterdir() if p.is_dir())
 for name in names:
     d = SEEDED / name
